@@ -455,6 +455,75 @@ pub fn c16(thorough: bool, replay: Option<String>) -> i32 {
     let total_orders: usize = ps.iter().map(|p| orders(&p.defs).len()).sum();
     rep.add_sub("repl-histories", &format!("{} definition pools with {} define-before-use orders in total x {} expressions (closed and open)", ps.len(), total_orders, n), n, true, capped, st);
 
+    // redefinition histories: define everything, optionally evaluate one expression (warming whatever the evaluator
+    // keeps), redefine ONE helper, evaluate an expression: the result must be that of the program built from the
+    // definitions now in force
+    {
+        let v1: Vec<(&str, &str)> = vec![
+            ("scale", "(defun scale (X) (* X 2))"),
+            ("g", "(defun g (X) (+ 1 (scale X)))"),
+            ("K", "(defconstant K 1)"),
+            ("h", "(defun h (X) (+ X K))"),
+            ("dbl", "(defun-inline dbl (X) (* X 2))"),
+            ("u", "(defun u (X) (dbl (+ X 1)))"),
+            ("M", "(defmacro M (P) (qq (+ (unquote P) 1)))"),
+            ("w", "(defun w (X) (M X))"),
+        ];
+        let v2: Vec<(&str, &str)> = vec![("scale", "(defun scale (X) (* X 3))"), ("K", "(defconstant K 10)"), ("dbl", "(defun-inline dbl (X) (* X 5))"), ("M", "(defmacro M (P) (qq (+ (unquote P) 7)))"), ("g", "(defun g (X) (+ 2 (scale X)))")];
+        let exprs: Vec<&str> = vec!["(g 5)", "(a g (list 5))", "(h 5)", "(a h (list 5))", "(u 5)", "(a u (list 5))", "(w 5)", "(a w (list 5))", "K", "(dbl 4)", "(M 4)", "(list (g 1) (a g (list 1)))"];
+        let mut plan: Vec<(Option<usize>, usize, usize)> = vec![];
+        for warm in std::iter::once(None).chain((0..exprs.len()).map(Some)) {
+            for r in 0..v2.len() {
+                for e in 0..exprs.len() {
+                    plan.push((warm, r, e));
+                }
+            }
+        }
+        let n = plan.len() as u64;
+        let (mut st, capped) = par_range(n, 4, cap, || (0u64, 0u64), |c, st, i| {
+            let (warm, r, e) = plan[i as usize];
+            st.eval();
+            let mut lines: Vec<String> = v1.iter().map(|d| d.1.to_string()).collect();
+            if let Some(w) = warm {
+                lines.push(exprs[w].to_string());
+            }
+            lines.push(v2[r].1.to_string());
+            let (out, tr) = repl_history(&lines, exprs[e]);
+            c.0 += 1;
+            c.1 += tr as u64;
+            st.count("states", 1);
+            st.count("transitions", tr as u64);
+            // definitions in force at the end
+            let final_defs: Vec<String> = v1.iter().map(|d| if d.0 == v2[r].0 { v2[r].1.to_string() } else { d.1.to_string() }).collect();
+            let text = format!("(mod () {} {})", final_defs.join(" "), exprs[e]);
+            let replay = json!({"kind": "c16", "history": lines, "expr": exprs[e]});
+            match out {
+                ReplOut::Panic(p) => st.violation("repl-panic/redefinition", format!("history {:?} then {}: {}", lines, exprs[e], p), lines.len(), replay),
+                ReplOut::Error(err) => {
+                    st.outcome("repl-error(no claim)");
+                    st.count(&format!("repl-error[{}]", err.chars().take(40).collect::<String>()), 1);
+                }
+                ReplOut::Residual(_) => st.outcome("closed-residual(no claim)"),
+                ReplOut::Constant(cst) => match compile_plain(&text) {
+                    Ok(code) => match consensus(&code, &T::nil()) {
+                        Out::Val(v) if v == cst => {
+                            st.outcome("constant-equals-the-program-of-the-definitions-in-force");
+                            st.nontrivial(&(warm, r, e));
+                            st.sample(json!({"history": lines, "expression": exprs[e], "repl_constant": cst.short(), "compiled_value": v.short()}));
+                        }
+                        Out::Val(v) => st.violation(&format!("stale-after-redefinition/{}", v2[r].0), format!("after {:?} the REPL reduces {} to {}, but the program of the definitions in force, {}, returns {}", lines, exprs[e], cst.short(), text, v.short()), lines.len(), replay),
+                        _ => st.count("compiled-program-has-no-value(no claim)", 1),
+                    },
+                    Err(err) => st.count(&format!("compiled-twin-rejected[{}]", err.chars().take(40).collect::<String>()), 1),
+                },
+            }
+        });
+        rep.states += st.counters.get("states").copied().unwrap_or(0);
+        rep.transitions += st.counters.get("transitions").copied().unwrap_or(0);
+        st.max_samples = 3;
+        rep.add_sub("redefinition-histories", &format!("8 definitions (defun, defun-inline, defconstant, defmacro and functions depending on each) entered, then no or one of {} warm-up expressions (direct calls and functions used as values), then the redefinition of one of {} helpers, then each of {} expressions", exprs.len(), v2.len(), exprs.len()), n, true, capped, st);
+    }
+
     // generated programs: the definitions and main expressions of C01's exhaustively enumerated families
     {
         use crate::gen::*;
